@@ -96,6 +96,8 @@ enum PRes {
 
 fn bound(sel: u8, raw: usize, len: usize) -> Bound<usize> {
     let i = pick(raw, len + 3);
+    // (rarely the largest index: `..=usize::MAX` / `(Excluded(usize::MAX), ..)` overflow when resolved)
+    let i = if sel >= 250 { usize::MAX } else { i };
     match sel % 4 {
         0 => Bound::Unbounded,
         1 | 2 => Bound::Included(i),
@@ -279,8 +281,8 @@ fn op_hash(op: &POp) -> u64 {
     let bh = |v: &[u8]| bsv_core::runner::fnv(v);
     let bd = |b: &Bound<usize>| match b {
         Bound::Unbounded => 1u64,
-        Bound::Included(i) => 2 + 4 * *i as u64,
-        Bound::Excluded(i) => 3 + 4 * *i as u64,
+        Bound::Included(i) => (*i as u64).wrapping_mul(4).wrapping_add(2),
+        Bound::Excluded(i) => (*i as u64).wrapping_mul(4).wrapping_add(3),
     };
     match op {
         POp::ExtCopy(v, t) => f(1, bh(v), *t as u64),
